@@ -969,7 +969,7 @@ def run(tier: str) -> int:
     tstart = time.time()
     first_bad = None
     for i in range(n_prog):
-        if time.time() - tstart > budget:
+        if i >= 60 and time.time() - tstart > budget:
             break
         p, version, optimize, stats, careful = gen_program(tier, i)
         stt, det = check_program(d, p, version, optimize)
